@@ -10,8 +10,11 @@
 package main
 
 import (
+	"bytes"
 	"fmt"
 	"os"
+	"os/exec"
+	"regexp"
 	"runtime"
 	"strings"
 	"sync"
@@ -1408,6 +1411,253 @@ func readerRound(r *vh.Rand, round int) *stressFail {
 	return nil
 }
 
+// ---- fragmented results (oracle only): the real receive() frag branch ---------------------------
+//
+// A result may arrive in fragments (16-bit group chosen by the client).  Whatever fragments
+// arrive, in whatever order: a job is only ever completed with data that was sent under ITS
+// number, and fragments naming another job leave it alone.  Every fragment body is "<job:text>",
+// so the assembled Result tells whose data it holds.
+
+type fragSpec struct {
+	Job, Group, Pos, Max int
+	Body                 string
+	Cancel               int `json:"cancel,omitempty"` // instead of a fragment: 1 = Cancel(job 10), 2 = Task(10) again
+}
+
+var markRe = regexp.MustCompile(`<(\d+):`)
+
+func fragScenario(name string, fr []fragSpec, wantDone map[int]string) {
+	out.Count("fragments", name, true)
+	s := c2.VerifC14SessionSync()
+	jobs := map[int]*c2.Job{}
+	for _, id := range []int{10, 11} {
+		j, err := s.Task(&com.Packet{ID: pktTask, Job: uint16(id)})
+		if err != nil {
+			out.Fail("Task failed on a fresh session: "+err.Error(), "frag:task-failed", map[string]interface{}{"scenario": name})
+			return
+		}
+		jobs[id] = j
+	}
+	c2.VerifC14Drain(s)
+	desc := map[string]interface{}{"scenario": name, "pending_jobs": []int{10, 11}, "fragments": fr}
+	fail := func(what, key string) { failOnce(what, key, desc) }
+	cancelled := map[*c2.Job]bool{}
+	var reissued *c2.Job
+	for i, f := range fr {
+		func() {
+			defer func() {
+				if x := recover(); x != nil {
+					fail(fmt.Sprintf("fragment %d: panic: %v", i, x), "frag:panic")
+				}
+			}()
+			switch f.Cancel {
+			case 1:
+				jobs[10].Cancel()
+				cancelled[jobs[10]] = true
+				return
+			case 2:
+				j, err := s.Task(&com.Packet{ID: pktTask, Job: 10})
+				if err == nil {
+					reissued = j
+				}
+				c2.VerifC14Drain(s)
+				return
+			}
+			n := &com.Packet{ID: c2.RvResult, Job: uint16(f.Job), Device: s.ID}
+			n.Flags.SetGroup(uint16(f.Group))
+			n.Flags.SetLen(uint16(f.Max))
+			n.Flags.SetPosition(uint16(f.Pos))
+			n.Write([]byte(f.Body))
+			c2.VerifC14Receive(s, n)
+			c2.VerifC14Drain(s)
+		}()
+		// after every fragment: whose data does each finished job hold?
+		check := func(id int, j *c2.Job) {
+			if j == nil || j.Result == nil {
+				return
+			}
+			pl := string(j.Result.Payload())
+			for _, m := range markRe.FindAllStringSubmatch(pl, -1) {
+				if m[1] != fmt.Sprint(id) {
+					fail(fmt.Sprintf("after fragment %d: job %d was completed (Status %d) with %q: it holds data sent under job number %s",
+						i, id, int(j.Status), pl, m[1]), "frag:foreign-data")
+					return
+				}
+			}
+		}
+		check(10, jobs[10])
+		check(11, jobs[11])
+		check(10, reissued)
+		for j := range cancelled {
+			if int(j.Status) != 5 || j.Result != nil {
+				fail(fmt.Sprintf("after fragment %d: a cancelled job changed (Status %d, Result set %v)", i, int(j.Status), j.Result != nil), "frag:cancelled-job-changed")
+			}
+		}
+	}
+	for id, j := range jobs {
+		want, should := wantDone[id]
+		switch {
+		case should && !j.IsDone():
+			fail(fmt.Sprintf("job %d did not complete although all its fragments arrived in order", id), "frag:not-completed")
+		case should && (j.Result == nil || string(j.Result.Payload()) != want || int(j.Status) != 3):
+			got := ""
+			if j.Result != nil {
+				got = string(j.Result.Payload())
+			}
+			fail(fmt.Sprintf("job %d completed with %q (Status %d), want %q", id, got, int(j.Status), want), "frag:wrong-payload")
+		case !should && wantDone != nil && !cancelled[j] && j.IsDone():
+			fail(fmt.Sprintf("job %d finished (Status %d) although no complete result of its own arrived", id, int(j.Status)), "frag:finished-without-result")
+		case !should && wantDone != nil && !cancelled[j] && c2.VerifC14Entry(s, uint16(id)) != j && reissued == nil:
+			fail(fmt.Sprintf("job %d left the table without a result", id), "frag:left-table")
+		}
+	}
+}
+
+func fragPart(rng *vh.Rand, thorough bool) {
+	F := func(job, g, pos, max int, txt string) fragSpec {
+		return fragSpec{Job: job, Group: g, Pos: pos, Max: max, Body: fmt.Sprintf("<%d:%s>", job, txt)}
+	}
+	none := map[int]string{}
+	fragScenario("in-order", []fragSpec{F(10, 0x55, 0, 2, "head"), F(10, 0x55, 1, 2, "tail")}, map[int]string{10: "<10:head><10:tail>"})
+	fragScenario("three", []fragSpec{F(11, 7, 0, 3, "a"), F(11, 7, 1, 3, "b"), F(11, 7, 2, 3, "c")}, map[int]string{11: "<11:a><11:b><11:c>"})
+	fragScenario("single-fragment-group", []fragSpec{F(10, 9, 0, 1, "only")}, map[int]string{10: "<10:only>"})
+	// a fragment naming ANOTHER pending job inside the group of job 10
+	fragScenario("foreign-fragment", []fragSpec{F(10, 0x55, 0, 2, "head"), F(11, 0x55, 1, 2, "tail")}, none)
+	fragScenario("foreign-fragment-then-own", []fragSpec{F(10, 0x55, 0, 2, "head"), F(11, 0x55, 1, 2, "tail"), F(10, 0x55, 1, 2, "tail")},
+		map[int]string{10: "<10:head><10:tail>"})
+	fragScenario("foreign-first", []fragSpec{F(11, 0x55, 0, 2, "head"), F(10, 0x55, 1, 2, "tail")}, none)
+	fragScenario("foreign-middle-of-three", []fragSpec{F(10, 3, 0, 3, "a"), F(11, 3, 1, 3, "b"), F(11, 3, 2, 3, "c")}, none)
+	fragScenario("two-groups-interleaved", []fragSpec{F(10, 1, 0, 2, "a"), F(11, 2, 0, 2, "x"), F(10, 1, 1, 2, "b"), F(11, 2, 1, 2, "y")},
+		map[int]string{10: "<10:a><10:b>", 11: "<11:x><11:y>"})
+	fragScenario("unknown-job-group", []fragSpec{F(12, 4, 0, 2, "a"), F(12, 4, 1, 2, "b")}, none)
+	// duplicates and a stale group: only "no foreign data / cancelled job untouched" is claimed
+	fragScenario("duplicate-fragment", []fragSpec{F(10, 5, 0, 2, "head"), F(10, 5, 0, 2, "head")}, nil)
+	fragScenario("stale-group-after-cancel", []fragSpec{F(10, 6, 0, 2, "head"), {Cancel: 1}, F(10, 6, 1, 2, "tail")}, nil)
+	fragScenario("stale-group-after-reissue", []fragSpec{F(10, 6, 0, 2, "head"), {Cancel: 1}, {Cancel: 2}, F(10, 6, 1, 2, "tail"), F(11, 6, 1, 2, "tail")}, nil)
+	fragScenario("position-without-group", []fragSpec{F(10, 8, 1, 2, "tail"), F(11, 8, 1, 2, "tail")}, none)
+	n := 300
+	if thorough {
+		n = 5000
+	}
+	for k := 0; k < n; k++ {
+		m := 2 + rng.Intn(5)
+		fr := make([]fragSpec, m)
+		for i := range fr {
+			max := 2 + rng.Intn(2)
+			fr[i] = F(10+rng.Intn(3), 1+rng.Intn(2), rng.Intn(max), max, string(rune('a'+i)))
+		}
+		fragScenario("random", fr, nil)
+	}
+}
+
+// ---- fatal errors of the Go run time (child process) --------------------------------------------
+//
+// "concurrent map read and map write" cannot be recovered: the stress that could provoke it runs
+// in a child process (this binary with C14_CHILD set); a crash of the child is a violation.
+
+func childMain(kind string) {
+	d := 1500 * time.Millisecond
+	if v := os.Getenv("C14_CHILD_MS"); v != "" {
+		var ms int
+		fmt.Sscan(v, &ms)
+		d = time.Duration(ms) * time.Millisecond
+	}
+	runtime.GOMAXPROCS(runtime.NumCPU())
+	s := c2.VerifC14Session()
+	var (
+		stop   uint32
+		rounds int64
+		wg     sync.WaitGroup
+	)
+	worker := func(seed uint64, what int) {
+		defer wg.Done()
+		r := vh.NewRand(seed)
+		for atomic.LoadUint32(&stop) == 0 {
+			func() {
+				defer func() { recover() }()
+				id := uint16(2 + r.Intn(24))
+				switch what {
+				case 0: // Task, then its result
+					if _, err := s.Task(&com.Packet{ID: pktTask, Job: id}); err == nil {
+						c2.VerifC14Handle(s, &com.Packet{ID: c2.RvResult, Job: id, Device: s.ID})
+					}
+				case 1: // Task, then Cancel
+					if j, err := s.Task(&com.Packet{ID: pktTask, Job: id}); err == nil {
+						j.Cancel()
+					}
+				case 2: // results for whatever is pending
+					c2.VerifC14Handle(s, &com.Packet{ID: c2.RvResult, Job: id, Device: s.ID})
+				case 3: // the readers of the table
+					s.Jobs()
+					if j := s.Job(id); j != nil {
+						j.IsDone()
+					}
+				}
+				c2.VerifC14Drain(s)
+				atomic.AddInt64(&rounds, 1)
+			}()
+		}
+	}
+	for i := 0; i < 8; i++ {
+		wg.Add(1)
+		go worker(uint64(100+i), i%4)
+	}
+	time.Sleep(d)
+	atomic.StoreUint32(&stop, 1)
+	fin := make(chan struct{})
+	go func() { wg.Wait(); close(fin) }()
+	select {
+	case <-fin:
+	case <-time.After(5 * time.Second):
+		fmt.Println("child: workers did not stop (lock left held?)")
+		os.Exit(3)
+	}
+	fmt.Printf("child ok kind=%s rounds=%d\n", kind, atomic.LoadInt64(&rounds))
+}
+
+func runChild(thorough bool) {
+	ms := "1500"
+	if thorough {
+		ms = "15000"
+	}
+	cmd := exec.Command(os.Args[0])
+	cmd.Env = append(os.Environ(), "C14_CHILD=task-vs-result", "C14_CHILD_MS="+ms)
+	var buf bytes.Buffer
+	cmd.Stdout, cmd.Stderr = &buf, &buf
+	done := make(chan error, 1)
+	if err := cmd.Start(); err != nil {
+		out.Note("child process could not be started: " + err.Error())
+		return
+	}
+	go func() { done <- cmd.Wait() }()
+	var err error
+	select {
+	case err = <-done:
+	case <-time.After(60 * time.Second):
+		cmd.Process.Kill()
+		err = fmt.Errorf("child did not finish in 60 s")
+	}
+	o := buf.String()
+	out.Count("child", "task-vs-result", true)
+	if err != nil {
+		first := ""
+		for _, l := range strings.Split(o, "\n") {
+			if strings.HasPrefix(l, "fatal error:") || strings.HasPrefix(l, "panic:") || strings.HasPrefix(l, "child:") {
+				first = l
+				break
+			}
+		}
+		if len(o) > 1500 {
+			o = o[:1500]
+		}
+		out.Fail("the child process running 8 goroutines of Task+result / Task+Cancel / results / Jobs+Job+IsDone on ONE session for "+ms+" ms crashed: "+first+" ("+err.Error()+")",
+			"child:crash:"+first, map[string]interface{}{"workers": []string{"Task(id);handle(id)", "Task(id);Cancel", "handle(id)", "Jobs();Job(id).IsDone()"},
+				"ids": "2..25", "goroutines": 8, "milliseconds": ms, "output_head": o})
+		return
+	}
+	out.Extra("child", strings.TrimSpace(o))
+}
+
 // two Task calls with the same number at the same time: both must not succeed
 func taskRace(r *vh.Rand) (both bool, detail map[string]interface{}) {
 	s := c2.VerifC14Session()
@@ -1444,6 +1694,10 @@ func taskRace(r *vh.Rand) (both bool, detail map[string]interface{}) {
 }
 
 func main() {
+	if k := os.Getenv("C14_CHILD"); k != "" {
+		childMain(k)
+		return
+	}
 	fl := vh.ParseFlags()
 	out = vh.NewOut("C14", fl, "From XMT Require Import Base.Prelude Model.Job.", "case", "check",
 		"sequential operation sequences (Task explicit/allocated/duplicate/full queue, result normal/error/duplicate/unknown/malformed, Cancel repeated, "+
@@ -1545,6 +1799,11 @@ func main() {
 		doSeq(seq, "random")
 	}
 	out.Extra("sequential_seconds", time.Since(t0).Seconds())
+
+	// ---- fragmented results through the real receive()
+	fragPart(rng, thorough)
+	// ---- run-time fatal errors (child process)
+	runChild(thorough)
 
 	// ---- deterministic interleavings through the scheduling points of the code
 	ts := time.Now()
